@@ -368,9 +368,16 @@ def cds_sliced_out(strand):
 GEN = GENOME40
 
 
-def sequences_on_chunk(lens, strand, frames):
-    """realised: window start, first start, gaps; chunk sequence = the genome's own stretch"""
+def sequences_on_chunk(lens, strand, frames, chunk_strand=PLUS):
+    """realised: window start, first start, gaps; chunk sequence = the genome's own stretch (reverse-complemented for a chunk placed on the minus strand:
+    every answer below is in transcript orientation and therefore the same on either chunk strand)"""
     k = len(lens)
+
+    def _cp(w):
+        st = GEN[w: w + L]
+        if chunk_strand is MINUS:
+            st = "".join({"A": "T", "C": "G", "G": "C", "T": "A"}[c] for c in reversed(st))
+        return chunk_parent(w, L, seq=st, strand=chunk_strand)
 
     def fn(**kw):
         names = sorted(kw)
@@ -381,7 +388,7 @@ def sequences_on_chunk(lens, strand, frames):
             ends = [s + n for s, n in zip(starts, lens)]
             w = kw["w"]
             fr = [CDSFrame(f) for f in frames]
-            par = chunk_parent(w, L, seq=GEN[w: w + L])
+            par = _cp(w)
             whole = CDSInterval(starts, ends, strand, fr, guid=44, parent_or_seq_chunk_parent=chrom_parent(GEN))
             chunk = CDSInterval(starts, ends, strand, fr, guid=44, parent_or_seq_chunk_parent=par)
             exp_all = ref_codon_positions(starts, lens, strand, frames)
@@ -403,7 +410,7 @@ def sequences_on_chunk(lens, strand, frames):
                 if str(chunk.translate()) != ref_translate(cstr, 0, False):
                     return False
                 # codon path after the tuple was listed
-                twin = CDSInterval(starts, ends, strand, fr, guid=44, parent_or_seq_chunk_parent=chunk_parent(w, L, seq=GEN[w: w + L]))
+                twin = CDSInterval(starts, ends, strand, fr, guid=44, parent_or_seq_chunk_parent=_cp(w))
                 cl = twin.chunk_relative_codon_locations
                 if "".join(str(c.extract_sequence()) for c in cl) != want or str(twin.extract_sequence()) != want:
                     return False
@@ -683,6 +690,16 @@ def obligations(tier):
                 for i in range(1, k):
                     sp["g%d" % i] = int
                 span = sum(lens)
+                if lens in ((7,), (4, 5)) and (not quick or mode is None) and not (len(lens) == 1 and f0):  # single exon, f0 != 0: finding F8b
+                    out.append(Obl("sequences_on_minus_chunk_" + tag, sequences_on_chunk(lens, strand, frames, MINUS), sp,
+                                   (lambda k, span: (lambda **kw: 0 <= kw["s0"] and kw["s0"] <= 8 and 0 <= kw["w"] and kw["w"] <= 16 and all(
+                                       1 <= kw["g%d" % i] and kw["g%d" % i] <= 3 for i in range(1, k)) and kw["s0"] + span + sum(
+                                       kw["g%d" % i] for i in range(1, k)) <= 40))(k, sum(lens)),
+                                   budget=600, cost=30, consts=dict(f0=f0, n=sum(lens), plus=strand is PLUS, k=k, L=L),
+                                   desc="the same on a chunk placed on the MINUS strand of the chromosome (chunk sequence = reverse complement of the stretch): "
+                                        "extract_sequence, translate, codon path, predicates, scan_codons and spliced sequence equal the in-window stretch of the "
+                                        "whole-chromosome ones", bounds="exon lengths %s, frames %s, first start 0..8, gaps 1..3, window start 0..16 (realised)" % (lens, frames),
+                                   examples=[dict({"s0": 3, "w": 2}, **{"g%d" % i: 2 for i in range(1, k)})]))
                 out.append(Obl("sequences_on_chunk_" + tag, sequences_on_chunk(lens, strand, frames), sp,
                                (lambda k, span: (lambda **kw: 0 <= kw["s0"] and kw["s0"] <= 8 and 0 <= kw["w"] and kw["w"] <= 16 and all(
                                    1 <= kw["g%d" % i] and kw["g%d" % i] <= 3 for i in range(1, k)) and kw["s0"] + span + sum(
